@@ -3,7 +3,7 @@
 (declare-const u16_1 (_ BitVec 16))
 (declare-const b_2 (_ BitVec 8))
 (push 1)
-(define-fun t!5738225 () Bool (= u16_1 (bvor (bvshl ((_ zero_extend 8) ((_ extract 7 0) (bvlshr u16_1 #x0008))) #x0008) ((_ zero_extend 8) ((_ extract 7 0) u16_1)))))
-(define-fun t!5738226 () Bool (not t!5738225))
-(assert t!5738226)
+(define-fun t!5738231 () Bool (= u16_1 (bvor (bvshl ((_ zero_extend 8) ((_ extract 7 0) (bvlshr u16_1 #x0008))) #x0008) ((_ zero_extend 8) ((_ extract 7 0) u16_1)))))
+(define-fun t!5738232 () Bool (not t!5738231))
+(assert t!5738232)
 (check-sat)
